@@ -20,8 +20,9 @@ LAYOUTS = ["single", "single", "multi", "multi", "trio", "trio", "trio+single", 
 STYLES = ["random", "paired", "interleaved", "nested", "chain-gaps", "clusters", "deep", "none"]
 
 
-def gen_case(rng, rephase=False):
-    """`rephase=True`: the VCF to be phased is the output of an EARLIER phasing run (see `_prephase`); the extra parameters are
+def gen_case(rng, rephase=False, mixed=False):
+    """`mixed=True`: a `--ped` run whose VCF holds a real family PLUS samples that end up in no trio (see `_mixed_contigs`).
+    `rephase=True`: the VCF to be phased is the output of an EARLIER phasing run (see `_prephase`); the extra parameters are
     derived from `gen_seed`, never from `rng`, so that the stream of plain cases (also used by C07) does not move"""
     layout = rng.choice(LAYOUTS)
     distrust = rng.random() < 0.2
@@ -65,7 +66,154 @@ def gen_case(rng, rephase=False):
                         "ids": r3.choice(["leftmost", "leftmost", "variant", "foreign", "mixed", "mixed"]),
                         "frac": r3.choice([1.0, 0.85, 0.6]),
                         "blocks": r3.choice([1, 1, 2, 3])}
+    if mixed:
+        r4 = random.Random(case["gen_seed"] ^ 0xFA317)
+        p["layout"] = "mixed"
+        p["n_contigs"] = r4.choice([2, 2, 3])
+        p["cap"] = r4.choice([2, 3, 15, 15])
+        p["no_genetic"] = r4.random() < 0.2
+        p["distrust"] = p["distrust"] and r4.random() < 0.5
+        p["include_hom"] = p["include_hom"] and p["distrust"]
+        p["missing_gt"] = 0.0
+        p["noise"] = 0
+        for k in ("ignore_rg", "merge_reads", "dup_names", "sample_sel"):
+            p[k] = False
+        p["chrom_sel"] = p["n_contigs"] == 3 and r4.random() < 0.3
+        kinds = ["vcf-only", "vcf-only", "founder-line", "half-line", "dropped-trio", "missing-member"]
+        extras = [{"kind": r4.choice(kinds), "where": r4.choice(["before", "after"])}]
+        while len(extras) < 3 and r4.random() < 0.45:
+            e = {"kind": r4.choice(kinds), "where": r4.choice(["before", "after"])}
+            if e["kind"] in ("dropped-trio", "missing-member") and any(x["kind"] in ("dropped-trio", "missing-member") for x in extras):
+                continue
+            extras.append(e)
+        p["mixed"] = {"family": r4.choice(["trio", "trio", "quartet"]), "names": r4.randrange(len(FAM_NAMES)), "extras": extras,
+                      "segments": r4.choice([2, 2, 3, 4]), "parent_reads": r4.choice(["none", "segments", "segments", "random"]),
+                      "list_all_samples": r4.random() < 0.25, "shuffle_columns": r4.random() < 0.6}
     return case
+
+
+# names of the samples of a `mixed` case: families are processed in the sorted order of their representative (= smallest member name)
+FAM_NAMES = [("F0", "M0", "C0", "D0"), ("Kfa", "Kmo", "Kch", "Kdo"), ("P1", "P2", "Kid", "Kie")]
+NAMES_BEFORE = ["A1", "Adam", "0pre", "B_x", "AA", "Bea"]
+NAMES_AFTER = ["S1", "Zed", "adam", "zz9", "Tom", "Lee"]
+
+
+def _mixed_contigs(rng, p):
+    """A `--ped` run over >= 2 chromosomes whose VCF holds one real family (trio / quartet) PLUS samples that end up in no trio:
+    `vcf-only` (a VCF column the PED file does not mention), `founder-line` (PED line with both parents 0), `half-line` (PED line
+    with one parent 0: the relationship is ignored), `dropped-trio` (a second complete trio of which --sample leaves out one
+    member), `missing-member` (a PED trio one member of which is no column of the VCF) - with names that sort before / after
+    the family's representative.  On every chromosome the first child's reads form `segments` >= 2 components (no read crosses
+    a segment border) and every segment contains a variant that is heterozygous in the child and homozygous in one parent, so
+    that pedigree mode has to merge the segments into one phase set.
+    Returns (samples = VCF columns, trios of the real family, contigs, ped_lines, sel_s)"""
+    mx = p["mixed"]
+    fa, mo, c1, c2 = FAM_NAMES[mx["names"]]
+    children = [c1] + ([c2] if mx["family"] == "quartet" else [])
+    family = [fa, mo] + children
+    trios = [(fa, mo, c) for c in children]
+    ped_lines = [("fam0", c, fa, mo) for c in children]
+    pools = {"before": list(NAMES_BEFORE), "after": list(NAMES_AFTER)}
+    for v in pools.values():
+        rng.shuffle(v)
+    singles, absent, leave_out = [], [], []
+    for k, e in enumerate(mx["extras"]):
+        pool = pools[e["where"]]
+        if e["kind"] == "vcf-only":
+            singles.append(pool.pop())
+        elif e["kind"] == "founder-line":
+            s = pool.pop(); singles.append(s); ped_lines.append((f"x{k}", s, "0", "0"))
+        elif e["kind"] == "half-line":
+            s, par = pool.pop(), pool.pop(); singles += [s, par]
+            ped_lines.append((f"x{k}", s, par, "0") if rng.random() < 0.5 else (f"x{k}", s, "0", par))
+        else:
+            pre = "A" if e["where"] == "before" else "Z"
+            t = [pre + "fa", pre + "mo", pre + "ch"]
+            ped_lines.append((f"x{k}", t[2], t[0], t[1]))
+            gone = rng.choice(t)
+            if e["kind"] == "dropped-trio":
+                singles += t; leave_out.append(gone)
+            else:
+                singles += [x for x in t if x != gone]; absent.append(gone)
+    rng.shuffle(ped_lines)
+    samples = family + singles
+    if mx["shuffle_columns"]:
+        rng.shuffle(samples)
+    sel_s = None
+    if leave_out or mx["list_all_samples"]:
+        sel_s = [s for s in samples if s not in leave_out]
+        rng.shuffle(sel_s)
+    contigs = []
+    for ci in range(p["n_contigs"]):
+        name = f"chr{ci + 1}"
+        L = rng.randrange(2200, 3600)
+        seq = sim.random_seq(rng, L)
+        nseg = mx["segments"]
+        nv = rng.randrange(3 * nseg + 1, 3 * nseg + 8)
+        vs = sim.make_variants(rng, name, seq, nv, kinds=p["kinds"], min_gap=40)
+        nv = len(vs)
+        nseg = max(1, min(nseg, nv // 3))
+        cuts = sorted(rng.sample(range(1, nv // 3), nseg - 1)) if nseg > 1 else []
+        # segment borders at multiples of 3 (+ jitter to the right): every segment has >= 3 variants
+        bounds = [0] + [3 * c for c in cuts] + [nv]
+        segs = [(bounds[i], bounds[i + 1] - 1) for i in range(nseg)]
+        haps = {}
+        for s in [fa, mo] + singles:
+            h0, h1 = [], []
+            for _ in vs:
+                if rng.random() < p["het_prob"]:
+                    a = rng.randrange(2); b = 1 - a
+                else:
+                    a = b = rng.randrange(2)
+                h0.append(a); h1.append(b)
+            haps[s] = [h0, h1]
+        trans = {c: (rng.randrange(2), rng.randrange(2)) for c in children}
+        kf, km = trans[c1]
+        forced = []
+        for (a, b) in segs:
+            i = rng.randrange(a, b + 1)
+            v = rng.randrange(2)
+            hom, het, kh = (fa, mo, km) if rng.random() < 0.5 else (mo, fa, kf)
+            haps[hom][0][i] = haps[hom][1][i] = v
+            haps[het][kh][i] = 1 - v; haps[het][1 - kh][i] = v
+            forced.append(i)
+        for c in children:
+            haps[c] = [list(haps[fa][trans[c][0]]), list(haps[mo][trans[c][1]])]
+        gt = {}
+        for s in samples:
+            g = []
+            for i in range(nv):
+                a, b = sorted((haps[s][0][i], haps[s][1][i]))
+                if p["distrust"] and i not in forced and rng.random() < 0.1:
+                    a, b = rng.choice([x for x in ((0, 0), (0, 1), (1, 1)) if x != (a, b)])
+                g.append(f"{a}/{b}")
+            gt[s] = g
+        cc = {"contig": name, "seq": seq, "variants": [{"pos": v.pos, "ref": v.ref, "alt": v.alt, "kind": v.kind} for v in vs],
+              "samples": list(samples), "haps": haps, "gt": gt, "reads": [], "segments": segs, "forced": forced}
+        def seg_blocks(dense):
+            blocks = []
+            for (a, b) in segs:
+                if b > a:
+                    blocks.append([(a, b)])
+                    for x in range(a, b):
+                        if rng.random() < dense:
+                            blocks.append([(x, x + 1)])
+                    if b - a >= 2 and rng.random() < 0.5:
+                        blocks.append([(a, a), (b, b)])
+            rng.shuffle(blocks)
+            return blocks
+        G.add_structured_reads(rng, cc, c1, seg_blocks(0.6), tag=name)
+        for s in family:
+            if s == c1:
+                continue
+            if mx["parent_reads"] == "segments":
+                G.add_structured_reads(rng, cc, s, seg_blocks(0.3), tag=name)
+            elif mx["parent_reads"] == "random" and rng.random() < 0.6:
+                G.add_reads(rng, cc, s, depth=rng.choice([0.5, 1]), read_len=(60, 160), tag=name)
+        for s in singles:
+            _add_reads(rng, cc, s, rng.choice(["random", "chain-gaps", "clusters", "paired", "none"]), 0)
+        contigs.append(cc)
+    return samples, trios, contigs, ped_lines, sel_s
 
 
 def _prephase(rng, recs, contigs, samples, rp, keys, only_snvs):
@@ -199,13 +347,18 @@ def scenario(case):
     the command-line options"""
     p = case["params"]
     rng = random.Random(case["gen_seed"])
-    samples, trios, use_ped = _layout_samples(p["layout"])
-    contigs = []
-    for ci in range(p["n_contigs"]):
-        cc = _contig_case(rng, f"chr{ci + 1}", samples, trios, p)
-        for s in samples:
-            _add_reads(rng, cc, s, rng.choice(STYLES), p["noise"])
-        contigs.append(cc)
+    ped_lines, mixed_sel = None, None
+    if p.get("mixed"):
+        samples, trios, contigs, ped_lines, mixed_sel = _mixed_contigs(rng, p)
+        use_ped = True
+    else:
+        samples, trios, use_ped = _layout_samples(p["layout"])
+        contigs = []
+        for ci in range(p["n_contigs"]):
+            cc = _contig_case(rng, f"chr{ci + 1}", samples, trios, p)
+            for s in samples:
+                _add_reads(rng, cc, s, rng.choice(STYLES), p["noise"])
+            contigs.append(cc)
     if p["dup_names"] and len(samples) > 1:
         # the same read name in two samples (two read groups of one BAM)
         for cc in contigs:
@@ -277,8 +430,13 @@ def scenario(case):
         sel_s = [r2.choice(samples)]
     elif p["sample_sel"] and len(samples) > 1 and not use_ped:
         sel_s = sorted(r2.sample(samples, r2.randrange(1, len(samples))))
+    if p.get("mixed"):
+        sel_s = mixed_sel
+        sel_c = sorted(r2.sample(names, 2)) if p["chrom_sel"] else None
+    if ped_lines is None:
+        ped_lines = [(f"fam{i}", ch, fa_, mo) for i, (fa_, mo, ch) in enumerate(trios)]
     return {"samples": samples, "trios": trios, "use_ped": use_ped and not p["ignore_rg"], "contigs": contigs, "records": recs,
-            "keys": keys, "sel_c": sel_c, "sel_s": sel_s}
+            "keys": keys, "sel_c": sel_c, "sel_s": sel_s, "ped_lines": ped_lines}
 
 
 FMT_DEFS = {
@@ -321,8 +479,8 @@ def build(case, d):
     if sc["use_ped"]:
         ped = os.path.join(d, "in.ped")
         with open(ped, "w") as f:
-            for i, (fa_, mo, ch) in enumerate(sc["trios"]):
-                f.write(f"fam{i}\t{ch}\t{fa_}\t{mo}\t0\t1\n")
+            for fam_id, ch, fa_, mo in sc["ped_lines"]:
+                f.write(f"{fam_id}\t{ch}\t{fa_}\t{mo}\t0\t1\n")
         paths["ped"] = ped
         args += ["--ped", ped]
         if p["no_genetic"]:
